@@ -502,7 +502,7 @@ Proof.
   intros H. unfold spea2_res. set (ks := keyed dm inds). set (chosen := filter is_front ks).
   set (others := filter (fun kp => negb (is_front kp)) ks).
   pose proof (Permutation_length (filter_partition_perm is_front ks)) as Pl. fold chosen others in Pl.
-  rewrite app_length in Pl. unfold ks in Pl at 3. rewrite keyed_length in Pl.
+  rewrite app_length in Pl. assert (Lk : length ks = length inds) by apply keyed_length. rewrite Lk in Pl.
   destruct (length chosen <? pop_size) eqn:E1.
   - apply Nat.ltb_lt in E1. rewrite app_length, firstn_length.
     rewrite (Permutation_length (stable_sort_perm (key_lt rank) others)). lia.
@@ -553,3 +553,166 @@ Proof.
   - rewrite front_count; auto.
   - apply (front_iff_nondominated dm inds kp A Hk). rewrite E. exact Hn.
 Qed.
+
+(* ------------------------------------------------------------------ fitness facts *)
+Lemma Qlt_b_asym a b : Qlt_b a b = true -> Qlt_b b a = false.
+Proof. intros H. apply Qlt_b_iff in H. apply Qlt_b_false_iff. apply Qlt_le_weak, H. Qed.
+
+Lemma dominates_loop_asym l r :
+  dominates_loop false l r = true -> dominates_loop false r l = true -> False.
+Proof.
+  revert r; induction l as [|a l IH]; intros [|b r]; simpl; try discriminate.
+  destruct (Qlt_b a b) eqn:E1.
+  - rewrite (Qlt_b_asym _ _ E1). discriminate.
+  - destruct (Qlt_b b a) eqn:E2; [discriminate|]. apply IH.
+Qed.
+
+Lemma tuple_gt_both_false l r : tuple_gt l r = false -> tuple_gt r l = false -> identical l r = true.
+Proof.
+  unfold identical. revert r; induction l as [|a l IH]; intros [|b r]; simpl; try discriminate; [reflexivity|].
+  rewrite (Qeq_bool_sym b a). destruct (Qeq_bool a b) eqn:E; simpl.
+  - apply IH.
+  - intros H1 H2. rewrite (Q_trichotomy_b _ _ E), H1 in H2. discriminate.
+Qed.
+
+Lemma identical_close l r : identical l r = true -> forallb2 close l r = true.
+Proof.
+  unfold identical. revert r; induction l as [|a l IH]; intros [|b r]; simpl; try discriminate; [reflexivity|].
+  intros H. apply andb_true_iff in H as [H1 H2]. apply Qeq_bool_iff in H1.
+  rewrite (close_refl_eq _ _ H1), (IH _ H2). reflexivity.
+Qed.
+
+Lemma gt_asym_same_class f g :
+  same_class f g = true -> gt f g = Ok true -> gt g f = Ok true -> False.
+Proof.
+  intros Hc. unfold gt, le.
+  destruct (lt f g) eqn:L1; [simpl; discriminate|]. destruct (lt g f) eqn:L2; [simpl; discriminate|].
+  assert (Vf : valid f = true).
+  { destruct (valid f) eqn:Vf; [reflexivity|]. unfold lt in L1. rewrite Vf in L1. discriminate. }
+  assert (Vg : valid g = true).
+  { destruct (valid g) eqn:Vg; [reflexivity|]. unfold lt in L2. rewrite Vg in L2. discriminate. }
+  unfold lt in L1, L2. rewrite Vf, Vg in L1, L2. cbn [negb] in L1, L2.
+  pose proof (tuple_gt_both_false _ _ L1 L2) as Id.
+  unfold eq. rewrite Hc, Vf, Vg. cbn [andb].
+  rewrite (allclose_same_length _ _ (identical_length _ _ Id)), (identical_close _ _ Id). simpl. discriminate.
+Qed.
+
+Lemma fit_dom_asym f g : fit_dom f g = true -> fit_dom g f = false.
+Proof.
+  unfold fit_dom. destruct f as [p s|v w], g as [q t|v' w'].
+  - unfold dominates. destruct (gt (Single p s) (Single q t)) as [[|]|] eqn:E1; try discriminate.
+    intros _. destruct (gt (Single q t) (Single p s)) as [[|]|] eqn:E2; try reflexivity.
+    exfalso. eapply (gt_asym_same_class (Single p s) (Single q t)); eauto.
+  - intros _. reflexivity.
+  - simpl. discriminate.
+  - simpl. destruct (dominates_loop false (wvalues v w) (wvalues v' w')) eqn:E1; [|discriminate].
+    intros _. destruct (dominates_loop false (wvalues v' w') (wvalues v w)) eqn:E2; [|reflexivity].
+    exfalso. eapply dominates_loop_asym; eauto.
+Qed.
+
+Lemma dom_asym : asym dom.
+Proof. intros a b. apply fit_dom_asym. Qed.
+
+(* on separated valid fitness values of one class, > is a strict weak order *)
+Definition sep_pop (l : list ind) : Prop :=
+  forall a b, In a l -> In b l ->
+    same_class (fitness a) (fitness b) = true /\ valid (fitness a) = true /\
+    sep_b (vals (fitness a)) (vals (fitness b)) = true.
+
+Lemma lex_identical_l l m r : identical l m = true -> lex_lt_b l r = lex_lt_b m r.
+Proof.
+  unfold identical. revert m r; induction l as [|a l IH]; intros [|b m] r; simpl; try discriminate; [reflexivity|].
+  intros H. apply andb_true_iff in H as [H1 H2]. apply Qeq_bool_iff in H1.
+  destruct r as [|c r]; [reflexivity|].
+  rewrite (Qeq_bool_comp a b c c H1 (Qeq_refl c)), (Qlt_b_comp a b c c H1 (Qeq_refl c)), (IH _ r H2). reflexivity.
+Qed.
+
+Lemma better_lex l a b : sep_pop l -> In a l -> In b l ->
+  better a b = lex_lt_b (vals (fitness a)) (vals (fitness b)).
+Proof.
+  intros S Ha Hb. destruct (S a b Ha Hb) as (Hc & Hf & Hs). destruct (S b a Hb Ha) as (_ & Hg & _).
+  unfold better, fit_better. rewrite (sep_gt _ _ Hc Hf Hg Hs).
+  destruct (lex_lt_b (vals (fitness a)) (vals (fitness b))); reflexivity.
+Qed.
+
+Lemma better_swo_on_separated l : sep_pop l -> swo_on better l.
+Proof.
+  intros S. repeat split.
+  - intros a Ha. rewrite (better_lex l a a S Ha Ha). apply lex_irrefl.
+  - intros a b c Ha Hb Hc. rewrite (better_lex l a b S Ha Hb), (better_lex l b c S Hb Hc), (better_lex l a c S Ha Hc).
+    apply lex_trans.
+  - intros a b c Ha Hb Hc. rewrite (better_lex l a b S Ha Hb), (better_lex l b c S Hb Hc), (better_lex l a c S Ha Hc).
+    intros H1 H2. destruct (lex_lt_b (vals (fitness a)) (vals (fitness c))) eqn:H3; [|reflexivity].
+    destruct (S a b Ha Hb) as (_ & _ & Hs). pose proof (sep_length _ _ Hs) as L.
+    rewrite (lex_trichotomy _ _ L) in H1. apply negb_false_iff, orb_true_iff in H1 as [H1|H1].
+    + rewrite (lex_trans _ _ _ H1 H3) in H2. discriminate.
+    + rewrite (lex_identical_l _ _ _ H1), H2 in H3. discriminate.
+Qed.
+
+(* ------------------------------------------------------------------ the wrapper *)
+Section Contract.
+  Variables bt dm : ind -> ind -> bool.
+
+  Lemma tournament_total rounds inds pop_size :
+    NoDup (map uid inds) -> pop_size <= length inds -> 1 <= length inds ->
+    exists tr, tournament_trace bt rounds inds pop_size = Some tr /\
+               tournament bt rounds inds pop_size = Some (map snd tr) /\ length tr = pop_size /\
+               tour_rounds bt (group_size (length inds)) inds tr /\
+               exists rest, Permutation (map snd tr ++ rest) inds.
+  Proof.
+    intros ND H1 H2. unfold tournament, tournament_trace.
+    destruct (tour_loop_total bt (pop_size * 10) rounds (group_size (length inds)) pop_size inds ND)
+      as (tr & E & L & P); try lia; [apply group_size_pos, H2|].
+    exists tr. rewrite E. repeat split; auto. eapply tour_loop_rounds, E.
+  Qed.
+
+  Theorem selection_contract_g t o population pop_size :
+    exists out, select_g bt dm t o population pop_size = Some out /\
+      incl out population /\
+      (2 <= n_distinct population ->
+         NoDup (map uid out) /\ length out = Nat.min pop_size (n_distinct population)) /\
+      (n_distinct population = 1 -> exists x, In x population /\ out = repeat x pop_size).
+  Proof.
+    unfold select_g, wrapper. pose proof (dedup_length population) as L.
+    pose proof (dedup_NoDup population) as ND. pose proof (dedup_In population) as I.
+    set (inds := dedup population) in *.
+    destruct (Nat.eqb (length inds) 1) eqn:E1.
+    - apply Nat.eqb_eq in E1. destruct inds as [|x [|y r]] eqn:Ei; simpl in E1; try lia.
+      exists (list_times [x] pop_size). rewrite list_times_single.
+      split; [reflexivity|]. split; [|split].
+      + intros z Hz. apply repeat_spec in Hz. subst z. apply I. left. reflexivity.
+      + simpl in L. lia.
+      + intros _. exists x. split; [apply I; left; reflexivity|reflexivity].
+    - apply Nat.eqb_neq in E1. destruct (length inds <=? pop_size) eqn:E2.
+      + apply Nat.leb_le in E2. exists inds. split; [reflexivity|]. split; [exact I|split].
+        * intros _. split; [exact ND|lia].
+        * lia.
+      + apply Nat.leb_gt in E2. destruct t.
+        * destruct (tournament_total (so_rounds o) inds pop_size ND) as (tr & _ & E & Lt & _ & rest & P); try lia.
+          exists (map snd tr). split; [exact E|]. split; [|split].
+          -- intros z Hz. apply I. eapply Permutation_app_incl; eauto.
+          -- intros _. split; [eapply Permutation_app_NoDup_map; eauto|rewrite map_length; lia].
+          -- lia.
+        * exists (spea2 dm (so_rank o) (so_del o) inds pop_size). split; [reflexivity|]. split; [|split].
+          -- intros z Hz. apply I. eapply spea2_incl, Hz.
+          -- intros _. split; [apply spea2_NoDup, ND|rewrite spea2_length; lia].
+          -- lia.
+  Qed.
+
+  Theorem spea2_keeps_front_g o population pop_size out x :
+    asym dm ->
+    select_g bt dm Spea2 o population pop_size = Some out ->
+    length (filter (nondominated dm (dedup population)) (dedup population)) <= pop_size ->
+    In x (dedup population) -> nondominated dm (dedup population) x = true -> In x out.
+  Proof.
+    intros A. unfold select_g, wrapper. set (inds := dedup population).
+    destruct (Nat.eqb (length inds) 1) eqn:E1.
+    - apply Nat.eqb_eq in E1. destruct inds as [|y [|z r]] eqn:Ei; simpl in E1; try lia.
+      intros E H Hx Hn. injection E as <-. destruct Hx as [<-|[]].
+      cbn [filter] in H. rewrite Hn in H. cbn [length] in H.
+      destruct pop_size; [lia|]. simpl. left. reflexivity.
+    - destruct (length inds <=? pop_size) eqn:E2.
+      + intros E _ Hx _. injection E as <-. exact Hx.
+      + intros E H Hx Hn. injection E as <-. apply spea2_keeps_front_raw; auto.
+  Qed.
+End Contract.
